@@ -62,6 +62,17 @@ def gen_tree(rng, max_nodes=10, links=True):
             other = parent + "/" + ("index.gemini" if name == "index.gmi" else "index.gmi")
             if other not in used and rng.random() < 0.5:
                 nodes.append((other, "f", b"SENTINEL-BESIDE-LONG-%d" % len(nodes))); used.add(other)
+    # link targets that pass THROUGH other links: a cycle in front of "..", and a directory link that leaves the root
+    # (non-strict resolve() gives up at the cycle and leaves the rest of such a path unresolved)
+    if links and rng.random() < 0.3:
+        parent = rng.choice(dirs)
+        depth = len(comps(parent)) - 1
+        lp, ev, via = parent + "/zloop", parent + "/zevil", parent + "/" + rng.choice(["zvia", "a", "index.gmi"])
+        if not ({lp, ev, via} & used):
+            nodes.append((lp, "l", rng.choice(["zloop", "zloop/x"])))
+            nodes.append((ev, "l", "../" * (depth + 1) + rng.choice(["outside", "rootx", "outside/secret.txt"])))
+            nodes.append((via, "l", rng.choice(["zloop/../zevil", "zevil/../zloop/../zevil", "zloop/../zevil/secret.txt", "./zloop/../zevil"])))
+            used |= {lp, ev, via}
     # every directory gets a uniquely named marker file, so that a listing identifies the directory it shows
     for i, (rel, kind, payload) in enumerate(list(nodes)):
         if kind == "d":
